@@ -958,6 +958,13 @@ def run(ctx):
                     ctx.violation("asf:save:not-idempotent", "a second save of the same tags (default padding, same ASF object) changed the file", desc)
             line = "asf op=save2 data=%s tags=%s pad=%s tags2=%s pad2=%s" % (hx(data), enc_tags(pairs), pad, enc_tags(tags2), pad2)
         reqs.append((line, impl, desc))
+        if k == "ok" and op in ("save", "delete") and rng.random() < 0.5:
+            # C01: what the saved file loads with — the model's `loadedTags (parseFull out)` against the real reload, attribute by
+            # attribute (name, type, value, language, stream, order), and the object tree
+            kr, ar = timed(lambda: ASF(io.BytesIO(out)), 20)
+            reqs.append(("asf op=walk data=%s" % hx(out), real_walk(ar) if kr == "ok" else classify(ar) if kr == "exc" else kr,
+                         dict(desc, op="reload-walk")))
+            ctx.hist["asf:reload-walk"] += 1
         if rng.random() < 0.3:
             which = out if k == "ok" else data
             reqs.append(("asf op=read data=%s" % hx(which), read_answer(which), dict(desc, op="read", of="output" if k == "ok" else "input")))
